@@ -1,4 +1,5 @@
 import Rustic.Model.Rabin
+import Rustic.Model.ChunkerErr
 import Rustic.Gen.Constants
 import Driver.Util
 namespace Driver.C06
@@ -28,6 +29,21 @@ partial def collectFixed (size : Nat) (st : FSt) (acc : List Nat) : List Nat :=
   | (none, _) => acc.reverse
   | (some c, st') => collectFixed size st' (c.length :: acc)
 
+partial def collectE (r : Roll σ) (p : Params) (st : St) (acc : List Nat) : List Nat × String :=
+  match nextE true r p st with
+  | (none, _) => (acc.reverse, "none")
+  | (some .err, _) => (acc.reverse, "err")
+  | (some (.chunk c), st') => collectE r p st' (c.length :: acc)
+
+partial def collectFixedE (size : Nat) (st : FSt) (acc : List Nat) : List Nat × String :=
+  match fixedNextE true size st with
+  | (none, _) => (acc.reverse, "none")
+  | (some .err, _) => (acc.reverse, "err")
+  | (some (.chunk c), st') => collectFixedE size st' (c.length :: acc)
+
+def obsE (x : List Nat × String) : String :=
+  s!"ok {joinNats x.1}{if x.1.isEmpty then "" else " "}end={x.2}"
+
 def handle : List String → String
   | ["rabin", poly, avg, mn, mx, seed, data] =>
     match parseHexU64 poly, avg.toNat?, mn.toNat?, mx.toNat?, seed.toNat?, unhex data with
@@ -38,6 +54,20 @@ def handle : List String → String
       let st := St.init Rustic.Gen.BUF_SIZE bs (mkSched seed.toUInt64 (seed % 50))
       "ok " ++ joinNats (collect (roll t) p st [])
     | _, _, _, _, _, _ => "bad-op"
+  | ["rabinfail", poly, avg, mn, mx, seed, failAt, data] =>
+    match parseHexU64 poly, avg.toNat?, mn.toNat?, mx.toNat?, seed.toNat?, failAt.toNat?, unhex data with
+    | some poly, some avg, some mn, some mx, some seed, some failAt, some bs =>
+      if mn = 0 then "bad-op" else
+      let t := Tables.mk' Rustic.Gen.WINDOW_BITS poly
+      let p : Params := { min := mn, max := mx, mask := (avg - 1).toUInt64, win := Rustic.Gen.PREFILL_SLICE }
+      let st := St.init Rustic.Gen.BUF_SIZE (bs.take failAt) (mkSched seed.toUInt64 (seed % 50))
+      obsE (collectE (roll t) p st [])
+    | _, _, _, _, _, _, _ => "bad-op"
+  | ["fixedfail", size, _seed, failAt, data] =>
+    match size.toNat?, failAt.toNat?, unhex data with
+    | some size, some failAt, some bs =>
+      if size = 0 then "bad-op" else obsE (collectFixedE size { rest := bs.take failAt, finished := false } [])
+    | _, _, _ => "bad-op"
   | ["litwin", poly, avg, mn, mx, _seed, data] =>
     match parseHexU64 poly, avg.toNat?, mn.toNat?, mx.toNat?, unhex data with
     | some poly, some avg, some mn, some mx, some bs =>
